@@ -64,6 +64,15 @@ def index_def(fn, e, at):
     return e
 
 
+KEEP_UPD = ('__init__', 'initialize', 'update', '_init', 'callback', '_create_io_eval')
+
+
+def upd_of(cls):
+    """the update method of an inlet / outlet class with the private helpers it was split into inlined again"""
+    ic = M.inlined_class(cls, keep=set(KEEP_UPD) | set(n_ for n_ in M.methods(cls) if not n_.startswith('_')))
+    return M.methods(ic).get('update')
+
+
 def rule_fresh(chk, rel, cls, fn):
     who = '%s.%s' % (cls.name, fn.name)
     g = C.build_cfg(fn)
@@ -106,10 +115,11 @@ def rule_inlet(chk, rel, cls, fn):
             arr = compact(a.target.value.value)
             ax = a.target.value.attr
             same_idx = index_def(fn, a.target.slice, a) is idef
+            from verif_static import norm as N_
             val = compact(a.value)
             want = 'self.length*self.%s' % AXIS_N[ax]
             sign = '+' if isinstance(a.op, ast.Add) else '-' if isinstance(a.op, ast.Sub) else '?'
-            shifts[(arr, ax)] = (sign, val == want or val == 'self.%s*self.length' % AXIS_N[ax], same_idx, a, val)
+            shifts[(arr, ax)] = (sign, N_.same(N_.inline(a.value, N_.local_defs([fn])), want), same_idx, a, val)
     for ax in 'xyz':
         s = shifts.get(('inlet_pa', ax))
         ok = s is not None and s[0] == '+' and s[1] and s[2]
@@ -191,6 +201,14 @@ def rule_outlet(chk, rel, cls, fn):
     chk.decide(ok, 'outlet-move', '%s:%s:delete-beyond-outlet' % (fam, who), node=r2[0] if r2 else fn, file=rel, func=who,
                detail_bad='particles removed from the outlet are %s; expected those of the outlet array with zone id 2 (beyond its far end)' % (o2,),
                detail_ok='outlet particles with ioid == 2')
+    # ... and that deletion happens on every path of an active stage: whether anything crossed the interface in this stage has no bearing on what has left the far end
+    from verif_static import paths as PT
+    act = [p_ for p_ in PT.enumerate_paths(M.docstring_stripped(fn.body)) if PT.took(p_, True, 'stage in self.active_stages') is not None and p_[-1].kind != 'raise']
+    skip = [p_ for p_ in act if not any(cal.endswith('outlet_pa.remove_particles') for i_, c_, cal, env_ in PT.calls_on(p_))]
+    chk.decide(bool(act) and not skip, 'outlet-move', '%s:%s:delete-beyond-outlet-on-every-path' % (fam, who), node=fn, file=rel, func=who,
+               detail_bad='a path through an active stage leaves without removing the outlet particles that passed the far end (tests on it: %s): they are never deleted when, in that '
+                          'stage, nothing crossed the interface' % ([U(e.node)[:50] + ' -> %s' % e.truth for e in skip[0] if e.kind == 'cond'] if skip else ''),
+               detail_ok='outlet_pa.remove_particles(...) on every path of an active stage')
     other = [k for k in by if k not in ('source_pa', 'outlet_pa', 'ghost_pa')]
     chk.decide(not other, 'outlet-move', '%s:%s:no-other-removal' % (fam, who), node=fn, file=rel, func=who, detail_bad='removals from %s' % other, detail_ok='only fluid and outlet (and its ghost)')
     if 'ghost_pa' in by and len(r2) == 1:
@@ -294,7 +312,7 @@ def rule_families(chk, ci):
             chk.decide(len(cl) == 1, 'families-route-through-bases', '%s:%s-class' % (fam, kind), node=t2, file=r2, func=kind, line=1,
                        detail_bad='no class deriving from %s' % base, detail_ok=cl[0].name if cl else '')
             for c in cl:
-                up = M.methods(c).get('update')
+                up = upd_of(c)
                 n += 1
                 if up is None:
                     chk.holds('families-route-through-bases', '%s:%s-update' % (fam, kind), node=c, file=r2, func=c.name, detail='inherits %s.update' % base)
@@ -325,6 +343,35 @@ def rule_zone_length(chk):
     chk.decide(ok, 'zone-codes', 'zone-length-is-the-extent-along-the-normal', node=st[0] if st else fn, file=IOM, func='InletOutletManager._update_inlet_outlet_info',
                detail_bad='info.length is not |sum_k (max(x_k) - min(x_k) + dx) n_k|: a length measured from the interface (or from anything the particles move relative to) changes with their '
                           'current offset, so originals are recycled the wrong distance and outlet particles deleted at the wrong place after a restart', detail_ok='|extent . normal| with extent = bounding box + dx')
+
+
+def rule_dx_everywhere(chk):
+    """the spacing the zone length is widened by (info.dx) is the one given to update_dx for *every* zone whose length is computed from it: update_dx assigns it to the same
+    collection of infos that _update_inlet_outlet_info reads it from (an outlet left at the default spacing gets a zone that is too long or too short)"""
+    from verif_static import norm as N_
+    t = M.py(IOM)
+    mgr = M.find_class(t, 'InletOutletManager')
+    ud = M.find_func(mgr, 'update_dx')
+    ui = M.find_func(mgr, '_update_inlet_outlet_info')
+
+    def coll(fn, writes):
+        out = []
+        ld = N_.local_defs([fn])
+        for l in [x for x in ast.walk(fn) if isinstance(x, ast.For) and isinstance(x.target, ast.Name)]:
+            tv = l.target.id
+            hit = False
+            for a in ast.walk(l):
+                if writes and isinstance(a, ast.Assign) and compact(a.targets[0]) == '%s.dx' % tv:
+                    hit = True
+                if not writes and isinstance(a, ast.Attribute) and a.attr == 'dx' and compact(a.value) == tv and isinstance(a.ctx, ast.Load):
+                    hit = True
+            if hit:
+                out.append(N_.canon(N_.inline(l.iter, ld)))
+        return out
+    w, r = coll(ud, True), coll(ui, False)
+    chk.decide(bool(w) and bool(r) and all(x in w for x in r), 'zone-codes', 'spacing-set-for-every-zone', node=ud, file=IOM, func='InletOutletManager.update_dx',
+               detail_bad='update_dx assigns the spacing to the infos in %s, but the zone lengths are computed (info.dx read) for %s' % (w, r),
+               detail_ok='dx set on inlet and outlet infos alike')
 
 
 def rule_alignment(chk):
@@ -470,17 +517,21 @@ def main(chk):
     ci = None
     ib, ob = M.find_class(t, 'InletBase'), M.find_class(t, 'OutletBase')
     for cls, rule in ((ib, rule_inlet), (ob, rule_outlet)):
-        up = M.find_func(cls, 'update')
+        up = upd_of(cls)
         rule_fresh(chk, IOM, cls, up)
         rule(chk, IOM, cls, up)
         g = C.build_cfg(up)
-        gi = [i for i in ast.walk(up) if isinstance(i, ast.If) and compact(i.test) == 'stageinself.active_stages']
-        chk.decide(len(gi) == 1, 'zone-ids-fresh', 'bc:%s.update:active-stages' % cls.name, node=up, file=IOM, func=cls.name + '.update',
+        from verif_static import paths as PT
+        acting = [p_ for p_ in PT.enumerate_paths(M.docstring_stripped(up.body)) if any(cal in ('self.io_eval.update', 'self.io_eval.evaluate') or cal.endswith('.extract_particles')
+                                                                                       for i_, c_, cal, env_ in PT.calls_on(p_))]
+        gi = [p_ for p_ in acting if PT.took(p_, True, 'stage in self.active_stages') is None]
+        chk.decide(bool(acting) and not gi, 'zone-ids-fresh', 'bc:%s.update:active-stages' % cls.name, node=up, file=IOM, func=cls.name + '.update',
                    detail_bad='update is not restricted to the active stages', detail_ok='if stage in self.active_stages')
     rule_zone_codes(chk)
     rule_families(chk, ci)
     rule_alignment(chk)
     rule_zone_length(chk)
+    rule_dx_everywhere(chk)
     rule_activation(chk)
     chk.assume('exactly-once over arbitrary runs and velocity fields (particles crossing and returning within a step) is not decided')
     chk.assume('ParticleArray.extract_particles / remove_particles copy and delete whole particles (C06)')
